@@ -306,7 +306,25 @@ def run(ctx):
         mm = acceptance_mismatch(flow.rel_facts_at(SIN, bb), {"len": ("len", ("param", st.path, 1))}, [{"len": n} for n in range(0, 20)], lambda len: len >= 8)
         ctx.check("decoder-guards", "single_tag_message/length", mm is None, "single-tag body is sliced only if len >= 8",
                   "single-tag length guard differs from the reference: %s" % mm, st.loc(bb))
-    ctx.floor("decoder-guards", len(idxs), 1, "slice sites in single_tag_message")
+    sgets = [bb for bb, t in st.calls() if callee_name(t["fn"].get("path", "")) == "get" and "slice" in t["fn"].get("path", "") and len(t["arg_tys"]) == 2
+             and "Range" in t["arg_tys"][1] and sev.call_args(bb)[0] == ("param", st.path, 1)]
+    for bb in sgets:
+        ctx.ok("decoder-guards", "single_tag_message/length", "the single-tag body is taken with bytes.get(range): None exactly when the range is outside the message", st.loc(bb))
+    ctx.floor("decoder-guards", len(idxs) + len(sgets), 1, "slice sites in single_tag_message")
+    # the cursor position on entry to single_tag_message: the count word(s) read by from_bytes
+    POS_TERMS = {}
+    for bb, t in fb.calls():
+        if strip_generics(t["fn"].get("path", "")) == st.path:
+            cur = bev.call_args(bb)[1]
+            touching = [b2 for b2, t2 in fb.calls() if b2 != bb and t2["args"] and fb.reaches(b2, bb) and t2["arg_tys"] and t2["arg_tys"][0].startswith("&mut") and
+                        "Cursor" in t2["arg_tys"][0] and bev.call_args(b2)[0] == cur]
+            if touching and all(b2 in reads and fb.dominates(b2, bb) for b2 in touching):
+                entry_pos = 4 * len(touching)
+                muts = [b2 for b2, t2 in st.calls() if t2["arg_tys"] and t2["arg_tys"][0].startswith("&mut") and "Cursor" in t2["arg_tys"][0]]
+                for b2, t2 in st.calls():
+                    if callee_name(t2["fn"].get("path", "")) == "position" and "Cursor" in t2["fn"].get("path", "") and \
+                            sev.call_args(b2)[0] == ("param", st.path, 2) and not any(st.reaches(m, b2) for m in muts):
+                        POS_TERMS[sev.call_term(b2)] = entry_pos
 
     MIN = flow.must_facts(mt, mev)
     MLEN = ("len", ("param", mt.path, 2))
@@ -366,7 +384,9 @@ def run(ctx):
         (fb, bev, IN, {"len": LEN, "n": N},
          [{"len": l, "n": n} for l in list(range(0, 41)) + [144, 152, 8192, 65536] for n in (0, 1, 2, 3, 5, 17, 18, 19, 1024, 1025, 65535, 2 ** 32 - 1)],
          lambda len, n: len >= 4 and len % 4 == 0 and (n == 0 or (n == 1 and len >= 8) or (2 <= n <= 18 and len >= 8 * n))),
-        (st, sev, SIN, {"len": ("len", ("param", st.path, 1))}, [{"len": l} for l in range(0, 41)], lambda len: len >= 8 and len % 4 == 0),
+        (st, sev, SIN, dict([("len", ("len", ("param", st.path, 1)))] + [("_pos%d" % i, t_) for i, t_ in enumerate(POS_TERMS)]),
+         [dict([("len", l)] + [("_pos%d" % i, POS_TERMS[t_]) for i, t_ in enumerate(POS_TERMS)]) for l in range(0, 41)],
+         lambda len, **_: len >= 8 and len % 4 == 0),
         (mt, mev, MIN, {"n": NT, "len": MLEN, "off": OFF, "s": s_t, "e": e_t},
          [{"n": n, "len": l, "off": o, "s": s_, "e": e_} for n in (2, 3, 18) for l in (8 * n, 8 * n + 4, 8 * n + 64)
           for o in (0, 1, 2, 4, l - 8 * n - 4, l - 8 * n, l - 8 * n + 4, l - 4, l, l + 4, 2 ** 32 - 4) if o >= 0
@@ -426,16 +446,27 @@ def run(ctx):
                     while isinstance(src, tuple) and src[0] in ("vfield", "field"):
                         src = src[1]
                     nm = callee_name(src[1]) if is_call(src) else "?"
-                    synth = None
+                    synths = []
                     if nm in ("ok_or", "ok_or_else") and is_call(src) and src[2]:
                         # `a.checked_sub(b).ok_or(err)?` rejects exactly when a < b: judged like an explicit `if a < b { return Err(..) }`
                         inner = values.strip_payload(W.expand(src[2][0]))
                         if is_call(inner) and callee_name(inner[1]) == "checked_sub" and "core::num" in inner[1] and len(inner[2]) == 2:
-                            synth = ("Lt", inner[2][0], inner[2][1])
-                    if synth is not None:
+                            synths = [("Lt", inner[2][0], inner[2][1])]
+                        # `s.get(a..b).ok_or(err)?` rejects exactly when b > len(s) or a > b
+                        if is_call(inner) and strip_generics(inner[1]).endswith("slice::get") and len(inner[2]) == 2 and inner[2][1][0] == "agg":
+                            lab, ops = str(inner[2][1][1]), inner[2][1][2]
+                            L_ = ("len", inner[2][0])
+                            if lab.endswith("Range::Range") and len(ops) == 2:
+                                synths = [("Lt", L_, ops[1]), ("Lt", ops[1], ops[0])]
+                            elif lab.endswith("RangeFrom::RangeFrom") and len(ops) == 1:
+                                synths = [("Lt", L_, ops[0])]
+                            elif lab.endswith("RangeTo::RangeTo") and len(ops) == 1:
+                                synths = [("Lt", L_, ops[0])]
+                    if synths:
                         verdicts = []
-                        for (p_, rels) in flow.path_conditions(fn, e, FIN, bl.idx, ef):
-                            rels = list(rels) + [synth]
+                        for (p_, rels0) in [(p1, r1) for (p1, r1) in flow.path_conditions(fn, e, FIN, bl.idx, ef)]:
+                          for synth in synths:
+                            rels = list(rels0) + [synth]
                             wit, used = rejection_witness(rels, roles, grid, consistent)
                             env0 = {roles[k_]: 0 for k_ in roles}
                             if cursor_within(synth):
